@@ -26,7 +26,8 @@ def jobs(tier):
         witnesses=['degenerate book','guess corrected'],models=['M-libm: pow returns any value within +-2 of the root'],functions=['_book_maptype1_quantvals'],
         bounds='entries 0..%d, dim 0..%d (incl. 0)'%(em,dm),weight=3,solver='kissat'))
     return J
-CLAIM=None
+CLAIM={'text':'Assume-guarantee chain of bounded model checks on the real packet-level decoder: header parsers on arbitrary input as producers of validity predicates (codebook, residue; comment via C16) with leak checks on every reject path, the lattice-size kernel incl. dim==0, the audio packet prologue against the specification for every packet, decoder init/retry/clear histories, and the accumulator step (vorbis_synthesis_blockin/pcmout/read) as an inductive step from every valid state.',
+ 'note':'Trusted: M-bitsrc over-approximates packet contents for parsers; M-bitpack for the prologue; contract stubs at the cuts listed per harness; allocation failure out of scope. Bounds per job (entries <= 3-4, partitions <= 4-8, packets <= 19-24 bytes...). NOT yet covered (planned in DESIGN section 3 C02, not built): floor0/floor1/mapping parsers, _vorbis_unpack_books, vorbis_book_init_decode and Huffman decode, floor/residue/mapping inverse kernels, stack budget (alloca) monitor. The claim is therefore memory safety and termination of the listed units only, not of the whole packet API.'}
 import importlib.util as _u, os as _o
 def _blk():
     p=_o.path.join(_o.path.dirname(_o.path.dirname(_o.path.abspath(__file__))),'block','jobs_common.py'); sp=_u.spec_from_file_location('blk',p); m=_u.module_from_spec(sp); sp.loader.exec_module(m); return m
